@@ -52,6 +52,27 @@ theorem C03_exclusive_after_verdict_any {name : String} (hg : gateOk name = true
       (h' = 0 ∨ ∃ j, rf = some j ∧ h' ∈ kids (X.ops.take (j+1))) → X.hb (.oth a) (.oth l) :=
   exclusive_after_verdict hg hc hp hrw hvb hl ho hone
 
+/-- **C03 (schedules), both directions.**  No access through any other handle is concurrent with the
+write a successful gate grants: former sharers' accesses happen-before it (`C03_exclusive_after_verdict`),
+and every handle that comes into existence afterwards descends from the gate's own handle and is
+born after the write (`WM.later_births_after_write`), so its accesses happen-after it. -/
+theorem C03_no_concurrent_access {name : String} (hg : gateOk name = true)
+    (hc : Consistent X) (hp : Protocol X Generated.decOrd fenceOrd)
+    (hrw : CoRW X) (hvb : ViaBorn X) {l w : X.A} {h : H} {o : MemOrd} {rf : Option Nat}
+    (hl : X.kind l = .load h o rf) (ho : ∀ g ∈ Generated.gates, g.name = name → o ∈ g.loads)
+    (hone : valRead X.ops rf = 1) (hlw : X.hb (.oth l) (.oth w)) (hex : MutExcl X l w h) :
+    ∀ (a : X.A) (h' : H), (X.kind a).via = some h' → h' ≠ h →
+      X.hb (.oth a) (.oth w) ∨ X.hb (.oth w) (.oth a) :=
+  no_concurrent_access_after_verdict hg hc hp hrw hvb hl ho hone hlw hex
+
+/-- later sharers: a handle created beyond the point the gate's load read from sees the write -/
+theorem C03_later_sharers_after_write (hc : Consistent X) (hp : Protocol X Generated.decOrd fenceOrd)
+    (hrw : CoRW X) (hvb : ViaBorn X) {l w : X.A} {h : H} {o : MemOrd} {rf : Option Nat}
+    (hl : X.kind l = .load h o rf) (hone : valRead X.ops rf = 1) (hex : MutExcl X l w h) :
+    ∀ (a : X.A) (h' : H), (X.kind a).via = some h' → h' ≠ 0 →
+      (∀ i s, X.ops[i]? = some (Op.inc h' s) → Beyond rf i) → X.hb (.oth w) (.oth a) :=
+  later_sharers_after_write hc hp hrw hvb hl hone hex
+
 /-- non-vacuity: the concrete two-thread execution of `WM/ExampleConsume.lean` (clone, hand over,
 read ‖ —, drop, acquire gate load reading 1) meets every hypothesis -/
 example : ExC.exX.hb (.oth (0 : ExC.EA)) (.oth (1 : ExC.EA)) :=
